@@ -255,7 +255,8 @@ Proof.
       exists (b0 ++ b), bit'. split; [rewrite Hr0, Hr; now rewrite app_assoc|].
       split; [rewrite Hm'; rewrite Z.shiftr_shiftr by lia; f_equal; lia|].
       cbn [drop_padding]. rewrite Ep. rewrite (enc_loop_nonpad sjis_enc cd) by assumption.
-      rewrite (contributes_nonpad cd) by assumption. cbv zeta. rewrite Hb2.
+      rewrite (contributes_nonpad cd) by assumption. rewrite Hb2.
+      replace (2 ^ k =? 0) with false by (symmetry; apply Z.eqb_neq; lia). rewrite !andb_false_r. cbv zeta.
       (* the low mask bit *)
       set (b1 := mask mod 2).
       assert (Hb1r : b1 = 0 \/ b1 = 1) by (unfold b1; pose proof (Z.mod_pos_bound mask 2 ltac:(lia)); lia).
